@@ -112,3 +112,13 @@ End Ecc.
 Arguments px {K}. Arguments py {K}. Arguments pr {K}. Arguments pw {K}.
 Arguments ox {K}. Arguments oy {K}. Arguments orad {K}. Arguments oattr {K}.
 Arguments b_real {K}. Arguments b_imag {K}. Arguments b_norm {K}. Arguments b_re {K}. Arguments b_im {K}.
+
+(* executable instance: Q in lowest terms *)
+From Coq Require Import QArith.
+Definition eadd x y := Qred (Qplus x y).
+Definition emul x y := Qred (Qmult x y).
+Definition esub x y := Qred (Qminus x y).
+Definition ediv x y := Qred (Qdiv x y).
+Definition eis0 (x : Q) : bool := Qeq_bool x 0.
+Definition q_ecc_from_particles := ecc_from_particles Q 0%Q 1%Q eadd emul esub ediv Qopp eis0.
+Definition q_ecc_from_lattice := ecc_from_lattice Q 0%Q 1%Q eadd emul esub ediv Qopp eis0.
